@@ -6,6 +6,7 @@ from ..frontend import AnalysisBroken
 from ..report import Report
 from ..vals import FuncCtx, is_assert_stmt, is_logger_call
 from . import common
+from .. import inv
 
 PID = "C06"
 GUARD_SPEC = [("isortkey", "desc"), ("dsortkey", "asc"), ("key", "asc")]
@@ -268,7 +269,7 @@ def rules(rep, m):
             if len(parts) == 1:
                 return [t]
             return [x_ for p_ in parts for x_ in conjuncts(p_)]
-        for cd in [x_ for c_ in conds for x_ in conjuncts(c_)]:
+        for cd in inv.dominating_conditions(cx, ps, c):
             c0 = cd[1:] if cd.startswith("!") else cd
             allowed = re.fullmatch(r"\(.+->type == CMI_PROCESS_AWAITABLE_\w+\)", c0) or c0 == "cmi_hashheap_is_enqueued(%s, %s)" % (a[0], a[1]) \
                 or re.fullmatch(r"\(%s != NULL\)" % re.escape(a[0]), c0)
@@ -346,7 +347,6 @@ def rules(rep, m):
     else:
         r5.ok()
         # the recorded list and how it is ordered
-        from .. import inv
         finals = [(l, r_, n_) for l, r_, k, n_ in inv.stores(cs) if k == "=" and r_ is not None
                   and strip(l, casts=True)["kind"] == "ArraySubscriptExpr" and any(z is n_ for z in walk(scan))
                   and cx.canon(r_) in (entry, "*&" + entry)]
